@@ -128,7 +128,7 @@ Qed.
 (* the info string as written: the language word with the backslashes the parser removed put back
    (the parser hands [lang] over unescaped, [extra] as written) *)
 Definition info_of (lang extra : str) : str :=
-  match lang with [] => [] | _ => escape_backslashes lang ++ match extra with [] => [] | _ => [sp] ++ extra end end.
+  match lang with [] => [] | _ => escape_backslashes_inner lang ++ match extra with [] => [] | _ => [sp] ++ extra end end.
 Definition code_lines (content : str) : list str :=
   match content with
   | [] => []
